@@ -51,6 +51,13 @@ def alt_values(V):
         out.append(("value-changed", S(s + "x")))
         if "\n" in s:
             out.append(("value-newline-to-other-separator", S(s.replace("\n", ["\u2028", "\x85", "\x0c"][len(s) % 3], 1))))
+            out.append(("value-newline-to-backslash-n-text", S(s.replace("\n", "\\n", 1))))
+        if "\t" in s:
+            out.append(("value-tab-to-backslash-t-text", S(s.replace("\t", "\\t", 1))))
+        if "\\n" in s:
+            out.append(("value-backslash-n-text-to-newline", S(s.replace("\\n", "\n", 1))))
+        if "\\" in s:
+            out.append(("value-backslash-doubled", S(s.replace("\\", "\\\\", 1))))
         if s:
             out.append(("value-char-dropped", S(s[:-1])))
             if s != s.swapcase():
